@@ -32,7 +32,13 @@ TOL = 1e-9
 
 def _ident(res, fmt):
     a = res.auth
+    if a is None:
+        # a file with label identifiers only (the auth_* items are optional in mmCIF)
+        return (res.label.chain, res.label.number, None, res.label.name)
     return (a.chain, a.number, a.icode, a.name)
+
+
+AUTH_COLS = ("auth_seq_id", "auth_comp_id", "auth_asym_id", "auth_atom_id")
 
 
 def judge(rec, exp, structure, exc):
@@ -277,8 +283,22 @@ def run_case(case, rec):
             if case["i"] % 4 == 2:
                 order = list(emit.CIF_COLS)
                 random.Random(f"order:{case['i']}").shuffle(order)
-            text = emit.emit_cif(rows, null=marker, nulls=per, label_seq=rng.choice(["index", "auth"]), extra_cats=extra, col_order=order)
-            desc = {"i": case["i"], "fmt": fmt, "null": marker, "nulls": per, "extra-categories": [c[0] for c in extra or []], "item-order": "shuffled" if order else "usual"}
+            label_only = case["i"] % 9 == 4 and not extra
+            if label_only:
+                # label identifiers only: residues are numbered 1, 2, ... within their chain (label_seq_id), no
+                # insertion codes; the optional auth_* items are absent from the file
+                counters, number = {}, {}
+                for r in rows:
+                    k = (r["model"], r["chain"], r["resseq"], r["icode"], r["resname"])
+                    if k not in number:
+                        counters[(r["model"], r["chain"])] = counters.get((r["model"], r["chain"]), 0) + 1
+                        number[k] = counters[(r["model"], r["chain"])]
+                for r in rows:
+                    r["resseq"], r["icode"] = number[(r["model"], r["chain"], r["resseq"], r["icode"], r["resname"])], None
+                text = emit.emit_cif(rows, null=marker, nulls=per, label_seq="auth", col_order=order, drop_cols=AUTH_COLS)
+            else:
+                text = emit.emit_cif(rows, null=marker, nulls=per, label_seq=rng.choice(["index", "auth"]), extra_cats=extra, col_order=order)
+            desc = {"i": case["i"], "fmt": fmt, "null": marker, "nulls": per, "extra-categories": [c[0] for c in extra or []], "item-order": "shuffled" if order else "usual", "label-identifiers-only": label_only}
         if fmt == "cif" and extra and etype != "polypeptide(L)":
             # every atom belongs to an entity that IS a nucleic-acid polymer (one of the four nucleic-acid types):
             # reading nucleic acids only must return what the plain reading returns
